@@ -238,6 +238,7 @@ def on_post_step(ctx, S, ln):
         restart_at_post=bool(S.status.get('restart')),
         digest_post=state_digest(S),
         e_est=L.status.get('error_embedded_estimate'),
+        e_extrap=L.status.get('error_extrapolation_estimate'),
         dt_new=L.status.dt_new,
         work_post=[dict(ctx.work.get(id(l.prob), {})) for l in S.levels],
         pysdc_work_post=[{k: v.niter for k, v in l.prob.work_counters.items()} for l in S.levels],
@@ -328,6 +329,9 @@ def apply_soft(ctx, S, faults):
 def make_ccs(ctx):
     """Injector / monitor convergence controllers (classes created per run so that ctx is bound by closure)."""
     from pySDC.core.convergence_controller import ConvergenceController
+    from pySDC.implementations.convergence_controller_classes.check_convergence import CheckConvergence
+
+    _check_convergence = CheckConvergence.check_convergence
 
     def base(order, **methods):
         def setup(self, controller, params, description, **kw):
@@ -366,7 +370,13 @@ def make_ccs(ctx):
                 'dt': L.dt,
                 'dt_new': L.status.dt_new,
                 'e_est': L.status.get('error_embedded_estimate'),
+                'e_extrap': L.status.get('error_extrapolation_estimate'),
+                'order_est': L.status.get('order_embedded_estimate'),
                 'restart': bool(S.status.get('restart')),
+                'force_done': bool(S.status.force_done),
+                'residual': L.status.residual,
+                'converged_now': bool(_check_convergence(S)),
+                'num_nodes': L.sweep.coll.num_nodes,
             }
         )
 
